@@ -2825,6 +2825,21 @@ impl<'de, 'e> de::Deserializer<'de> for YamlDeserializer<'de, 'e> {
         }
 
         impl<'de, 'e> VA<'de, 'e> {
+            /// A variant named by a bare scalar (`Variant`) carries no payload node. Its payload
+            /// is read from an empty (null) node of its own, never from the live stream: the
+            /// next event there belongs to the following sibling (the next sequence element or
+            /// mapping key), which must not be consumed as this variant's payload.
+            fn bare_variant_payload(&self) -> ReplayEvents<'de> {
+                ReplayEvents::new(vec![Ev::Scalar {
+                    value: Cow::Borrowed(""),
+                    tag: SfTag::Null,
+                    raw_tag: None,
+                    style: ScalarStyle::Plain,
+                    anchor: 0,
+                    location: self.ev.last_location(),
+                }])
+            }
+
             /// In map mode (`{ Variant: ... }`) ensure the closing `}` is present.
             fn expect_map_end(&mut self) -> Result<(), Error> {
                 match self.ev.next()? {
@@ -2869,6 +2884,13 @@ impl<'de, 'e> de::Deserializer<'de> for YamlDeserializer<'de, 'e> {
             where
                 T: de::DeserializeSeed<'de>,
             {
+                if !self.map_mode {
+                    let location = self.ev.last_location();
+                    let mut empty = self.bare_variant_payload();
+                    return seed
+                        .deserialize(YamlDeserializer::new(&mut empty, self.cfg))
+                        .map_err(|e| if e.location().is_none() { e.with_location(location) } else { e });
+                }
                 // Get locations for error reporting before deserializing.
                 let defined_location = self
                     .ev
@@ -2893,6 +2915,11 @@ impl<'de, 'e> de::Deserializer<'de> for YamlDeserializer<'de, 'e> {
             where
                 Vv: Visitor<'de>,
             {
+                if !self.map_mode {
+                    let mut empty = self.bare_variant_payload();
+                    return YamlDeserializer::new(&mut empty, self.cfg)
+                        .deserialize_tuple(len, visitor);
+                }
                 let result =
                     YamlDeserializer::new(self.ev, self.cfg).deserialize_tuple(len, visitor)?;
                 if self.map_mode {
@@ -2910,6 +2937,11 @@ impl<'de, 'e> de::Deserializer<'de> for YamlDeserializer<'de, 'e> {
             where
                 Vv: Visitor<'de>,
             {
+                if !self.map_mode {
+                    let mut empty = self.bare_variant_payload();
+                    return YamlDeserializer::new(&mut empty, self.cfg)
+                        .deserialize_struct("", fields, visitor);
+                }
                 let result = YamlDeserializer::new(self.ev, self.cfg)
                     .deserialize_struct("", fields, visitor)?;
                 if self.map_mode {
